@@ -1261,7 +1261,9 @@ def load_corpus():
 
 
 def gen_files():
-    return {"NarrowTable.v": narrowtable.translate(str(lib.REPO))}
+    from translate import narrowpreds
+
+    return {"NarrowTable.v": narrowtable.translate(str(lib.REPO)), "NarrowPreds.v": narrowpreds.translate(str(lib.REPO))}
 
 
 # ---------------------------------------------------------------------------
@@ -1342,6 +1344,13 @@ def run(tier: str, replay: str | None = None):
     _t = {"start": _time.time()}
     # 4a. model: started now in a thread (coqc subprocesses) so that it overlaps the implementation runs
     model_ok = proof is not None and not any("build failed" in b for b in proof.broken)
+    if not model_ok:
+        # a broken obligation (generated file or proof) does not stop the model itself from running:
+        # the evaluation needs only Narrow/{Base,Model,Guards}.vo
+        try:
+            model_ok, _log = lib.coq_make(["theories/Narrow/Guards.vo"], jobs=6)
+        except Exception:
+            model_ok = False
     model_box = {}
     model_thread = None
     if model_ok:
